@@ -357,6 +357,150 @@ func generate(f *rep.Flags, bounds map[string]any, emit func(*Case)) {
 		}
 	}
 
+	// F1b: one item whose writers repeat a value that is already there: the value the original
+	// container / request came with, or the value the first plugin set
+	if want("sameval") {
+		nSame := 3
+		if th {
+			nSame = 4
+		}
+		const (
+			sNone = iota
+			sSetOwn
+			sSetOrig
+			sSetP0
+			sRemove
+			sRemSetOrig
+			sRemSetP0
+			sSetOrigIgnore
+		)
+		for ki := range items.Kinds {
+			k := &items.Kinds[ki]
+			if k.Append || k.Name == "cdi" {
+				continue
+			}
+			for _, ch := range channels {
+				if ch.adjust && !k.InAdjust || !ch.adjust && !k.InUpdate {
+					continue
+				}
+				it := item0(k)
+				acts := []int{sNone, sSetOwn, sSetOrig, sSetP0}
+				if ch.adjust && k.Removable && k.Name != "args" {
+					acts = append(acts, sRemove, sRemSetOrig, sRemSetP0)
+				}
+				if !ch.adjust {
+					acts = append(acts, sSetOrigIgnore)
+				}
+				for n := 2; n <= nSame; n++ {
+					for _, ov := range origVariants(ch, []merge.Item{it}, th) {
+						ovv, has := ov.m[it]
+						if !has {
+							continue // nothing to repeat
+						}
+						if n == 4 && ov.name == "full" {
+							continue
+						}
+						vec := make([]int, n)
+						var rec func(i int)
+						rec = func(i int) {
+							if i == n {
+								c := &Case{Family: "sameval", Chan: ch.name, Focus: []string{k.Name}, Prepop: ov.name,
+									Req: merge.Request{Kind: ch.req, ID: own, Orig: ov.m, OrigList: ov.l}}
+								for p, a := range vec {
+									var ops []merge.Op
+									switch a {
+									case sSetOwn:
+										ops = []merge.Op{{Item: it, Val: pval(p, 0)}}
+									case sSetOrig, sSetOrigIgnore:
+										ops = []merge.Op{{Item: it, Val: ovv}}
+									case sSetP0:
+										ops = []merge.Op{{Item: it, Val: pval(0, 0)}}
+									case sRemove:
+										ops = []merge.Op{{Item: it, Remove: true}}
+									case sRemSetOrig:
+										ops = []merge.Op{{Item: it, Remove: true}, {Item: it, Val: ovv}}
+									case sRemSetP0:
+										ops = []merge.Op{{Item: it, Remove: true}, {Item: it, Val: pval(0, 0)}}
+									}
+									c.Resps = append(c.Resps, respFor(ch, ops, a == sSetOrigIgnore))
+								}
+								out(c)
+								return
+							}
+							for _, a := range acts {
+								vec[i] = a
+								rec(i + 1)
+							}
+						}
+						rec(0)
+					}
+				}
+			}
+		}
+	}
+
+	// F2d: many keys of one collection: the original carries 0..3 items of its own, the plugins add
+	// 1..3 new keys each (list lengths cross the capacities 1, 2, 4, 8 of slices grown by append), the
+	// last plugin only looks
+	if want("manykeys") {
+		ch := channels[0]
+		keyOf := func(kind string, i int) string {
+			switch kind {
+			case "annotation":
+				return fmt.Sprintf("kx%d", i)
+			case "env":
+				return fmt.Sprintf("EX%d", i)
+			case "mount":
+				return fmt.Sprintf("/mx%d", i)
+			}
+			return fmt.Sprintf("/dev/dx%d", i)
+		}
+		maxAdd := 3
+		for _, rk := range []string{"annotation", "env", "mount", "device"} {
+			for nOrig := 0; nOrig <= 3; nOrig++ {
+				orig := map[merge.Item]int{}
+				for i := 0; i < nOrig; i++ {
+					orig[merge.Item{Kind: rk, Key: keyOf(rk, 100+i)}] = 5 + i
+				}
+				// adds[p] = number of new keys plugin p adds; 2-3 adding plugins and an observer
+				var adds [][]int
+				for a0 := 1; a0 <= maxAdd; a0++ {
+					for a1 := 1; a1 <= maxAdd; a1++ {
+						adds = append(adds, []int{a0, a1, 0})
+						for a2 := 1; a2 <= 2; a2++ {
+							if th || a0+a1+a2 <= 6 {
+								adds = append(adds, []int{a0, a1, a2, 0})
+							}
+						}
+					}
+				}
+				for _, ad := range adds {
+					for _, withRemoval := range []bool{false, true} {
+						if withRemoval && nOrig == 0 {
+							continue
+						}
+						c := &Case{Family: "manykeys", Chan: ch.name, Focus: []string{rk, rk}, Prepop: fmt.Sprintf("orig%d", nOrig),
+							Req: merge.Request{Kind: "create", ID: own, Orig: orig}}
+						next := 0
+						for p, n := range ad {
+							var ops []merge.Op
+							if withRemoval && p == 1 {
+								// the second plugin also removes the first item of the original
+								ops = append(ops, merge.Op{Item: merge.Item{Kind: rk, Key: keyOf(rk, 100)}, Remove: true})
+							}
+							for j := 0; j < n; j++ {
+								ops = append(ops, merge.Op{Item: merge.Item{Kind: rk, Key: keyOf(rk, next)}, Val: pval(p, j)})
+								next++
+							}
+							c.Resps = append(c.Resps, respFor(ch, ops, false))
+						}
+						out(c)
+					}
+				}
+			}
+		}
+	}
+
 	// F2c: two keys of one removable kind, every combination of {none, set, remove, remove+set}
 	// per key and plugin, both list orders (positional handling of the collected lists)
 	if want("twokey") {
@@ -478,6 +622,92 @@ func generate(f *rep.Flags, bounds map[string]any, emit func(*Case)) {
 	}
 
 	// F3: update structure: several targets, several updates per plugin, ignore-failure flags
+	// F4b: updates that set nothing, in the three ways such a message can be spelled, alone or next to
+	// another plugin's update of the same / another target
+	if want("emptyupd") {
+		targets := []string{own, otherX}
+		fld := merge.Item{Kind: "cpu.shares"}
+		for _, rk := range []string{"create", "update", "stop"} {
+			for _, t := range targets {
+				for shape := 0; shape < 3; shape++ {
+					for _, ig := range []bool{false, true} {
+						empty := merge.Update{Target: t, Ignore: ig, Shape: shape}
+						// who else: nobody; an earlier / later plugin setting a field of the same or the other target;
+						// the same plugin with a second, non-empty update
+						type other struct {
+							where  string // "", "before", "after", "same-plugin-before", "same-plugin-after"
+							target string
+						}
+						others := []other{{"", ""}}
+						for _, w := range []string{"before", "after", "same-plugin-before", "same-plugin-after"} {
+							for _, t2 := range targets {
+								others = append(others, other{w, t2})
+							}
+						}
+						for _, o := range others {
+							c := &Case{Family: "emptyupd", Chan: rk + ".updates", Focus: []string{"updates"}, Prepop: "empty",
+								Req: merge.Request{Kind: rk, ID: own, Orig: map[merge.Item]int{}}}
+							full := func(p int) merge.Update {
+								return merge.Update{Target: o.target, Sets: []merge.Op{{Item: fld, Val: pval(p, 0)}}}
+							}
+							switch o.where {
+							case "":
+								c.Resps = []merge.Response{{Updates: []merge.Update{empty}}}
+							case "before":
+								c.Resps = []merge.Response{{Updates: []merge.Update{full(0)}}, {Updates: []merge.Update{empty}}}
+							case "after":
+								c.Resps = []merge.Response{{Updates: []merge.Update{empty}}, {Updates: []merge.Update{full(1)}}}
+							case "same-plugin-before":
+								c.Resps = []merge.Response{{Updates: []merge.Update{full(0), empty}}}
+							case "same-plugin-after":
+								c.Resps = []merge.Response{{Updates: []merge.Update{empty, full(0)}}}
+							}
+							out(c)
+						}
+					}
+				}
+			}
+		}
+	}
+
+	// F4c: three plugins, one update each, every non-empty subset of three fields of ONE target
+	// (claimed in different positions of the implementation's field order), every ignore-failure placement
+	if want("updates3") {
+		f3 := []merge.Item{{Kind: "mem.limit"}, {Kind: "cpu.shares"}, {Kind: "pids"}}
+		type uo struct {
+			mask   int
+			ignore bool
+		}
+		var opts []uo
+		for m := 1; m < 8; m++ {
+			opts = append(opts, uo{m, false}, uo{m, true})
+		}
+		fm3, _ := fullOrig(true)
+		for _, rq := range []struct {
+			kind, prepop, target string
+			orig                 map[merge.Item]int
+		}{{"update", "empty", own, map[merge.Item]int{}}, {"update", "full", own, fm3}, {"update", "empty", otherX, map[merge.Item]int{}}, {"create", "empty", otherX, map[merge.Item]int{}}} {
+			for _, a := range opts {
+				for _, b := range opts {
+					for _, cc := range opts {
+						c := &Case{Family: "updates3", Chan: rq.kind + ".updates", Focus: []string{"updates"}, Prepop: rq.prepop,
+							Req: merge.Request{Kind: rq.kind, ID: own, Orig: rq.orig}}
+						for p, o := range []uo{a, b, cc} {
+							mu := merge.Update{Target: rq.target, Ignore: o.ignore}
+							for fi, it := range f3 {
+								if o.mask&(1<<fi) != 0 {
+									mu.Sets = append(mu.Sets, merge.Op{Item: it, Val: pval(p, fi)})
+								}
+							}
+							c.Resps = append(c.Resps, merge.Response{Updates: []merge.Update{mu}})
+						}
+						out(c)
+					}
+				}
+			}
+		}
+	}
+
 	if want("updates") {
 		fields := []merge.Item{{Kind: "mem.limit"}, {Kind: "cpu.shares"}}
 		if th {
